@@ -89,3 +89,31 @@ pub mod readme_doc_check {
 	#[doc = include_str!("../README.md")]
 	pub struct Readme;
 }
+
+/// Verification seam: lets a harness substitute a recording filesystem watcher.
+#[cfg(watchexec_verif)]
+#[allow(missing_docs)]
+pub mod verif {
+	use std::cell::RefCell;
+
+	use crate::sources::fs::Watcher;
+
+	pub type Handler = Box<dyn notify::EventHandler>;
+	pub type Factory = Box<dyn FnMut(Watcher, Handler) -> Box<dyn notify::Watcher + Send>>;
+
+	thread_local! {
+		static FACTORY: RefCell<Option<Factory>> = const { RefCell::new(None) };
+	}
+
+	pub fn set_watcher_factory(f: Option<Factory>) {
+		FACTORY.with(|c| *c.borrow_mut() = f);
+	}
+
+	pub(crate) fn watcher_factory_installed() -> bool {
+		FACTORY.with(|f| f.borrow().is_some())
+	}
+
+	pub(crate) fn make_watcher(k: Watcher, h: Handler) -> Box<dyn notify::Watcher + Send> {
+		FACTORY.with(|f| (f.borrow_mut().as_mut().expect("installed"))(k, h))
+	}
+}
